@@ -145,7 +145,7 @@ func goSliceEnumerate(obj *object, all bool, each func(string) bool) {
 	goObj := obj.value.(*goSliceObject)
 	// .0, .1, .2, ...
 
-	for index, length := 0, goObj.value.Len(); index < length; index++ {
+	for index := 0; index < goObj.value.Len(); index++ { // the body may shrink the slice (ES5 12.6.4)
 		name := strconv.FormatInt(int64(index), 10)
 		if !each(name) {
 			return
